@@ -225,8 +225,8 @@ def full_client_deviation(rng: random.Random) -> dict:
 class C04(CheckBase):
     pid = "C04"
     level = "fault_enumeration"
-    quick_cases = 96
-    thorough_cases = 960
+    quick_cases = 128
+    thorough_cases = 1280
     stub = CheckBase.stub + ["for the helper-level runs: the connection object (recording stand-in)"]
 
     def cases(self, rng: random.Random, tier: str, idx: int) -> Iterable[dict]:
